@@ -13,8 +13,9 @@ Arm    == {"loader", "loader_json", "hook", "context", "context_t", "hook_after_
 Kind   == {"bytes", "seekable", "nonseekable"}
 Sev    == 0..5
 \* families of the analysed pickle A: its verdict, or "crash" when parsing/analysis raises
-Family == {"data", "bigdata", "unused", "dupproto", "sink", "getpid", "eval", "float0", "truncated", "underflow", "nomemo", "persid", "pkgsub"}
-VerdictOf(f) == CASE f \in {"data", "bigdata"} -> 0 [] f = "unused" -> 2 [] f = "dupproto" -> 3 [] f \in {"sink", "pkgsub"} -> 3 [] f = "getpid" -> 4 [] f = "eval" -> 5 [] OTHER -> 9
+Family == {"data", "bigdata", "unused", "dupproto", "sink", "getpid", "eval", "float0", "truncated", "underflow", "nomemo", "persid", "pkgsub",
+           "loadfails"}     \* analysed and rated like "sink", but the real unpickler raises (a global that cannot be resolved)
+VerdictOf(f) == CASE f \in {"data", "bigdata"} -> 0 [] f = "unused" -> 2 [] f = "dupproto" -> 3 [] f \in {"sink", "pkgsub", "loadfails"} -> 3 [] f = "getpid" -> 4 [] f = "eval" -> 5 [] OTHER -> 9
 Crashes(f) == VerdictOf(f) = 9
 
 VARIABLES arm, kind, t, fam,     \* configuration
@@ -35,7 +36,7 @@ Parse   == phase = "idle" /\ seen' = content
 Analyse == phase = "parsed"
            /\ phase' = (IF Crashes(fam) THEN "crashed" ELSE IF VerdictOf(fam) <= Acc THEN "analysed" ELSE "raised")
            /\ UNCHANGED <<arm, kind, t, fam, content, seen, executed>>
-Load    == phase = "analysed" /\ phase' = "returned"
+Load    == phase = "analysed" /\ phase' = (IF fam = "loadfails" THEN "failed" ELSE "returned")   \* failed: the stock unpickler raised
            /\ executed' = (IF Reread /\ kind # "bytes" THEN content ELSE seen)
            /\ UNCHANGED <<arm, kind, t, fam, content, seen>>
 Next == Mutate \/ Parse \/ Analyse \/ Load
@@ -44,7 +45,8 @@ Spec == Init /\ [][Next]_vars
 FailClosed ==
   /\ phase = "returned" => VerdictOf(fam) <= Acc /\ executed = seen /\ seen = "A"
   /\ phase \in {"raised", "crashed"} => executed = "-"
+  /\ phase = "failed" => VerdictOf(fam) <= Acc /\ executed = seen /\ seen = "A"        \* only an ACCEPTED load may fail inside the unpickler
   /\ (~Crashes(fam) /\ VerdictOf(fam) > Acc /\ phase \notin {"idle", "parsed"}) => phase = "raised"
-Done == phase \in {"returned", "raised", "crashed"}
+Done == phase \in {"returned", "raised", "crashed", "failed"}
 Emit == (phase = "idle") => PrintT(<<"CASE", ToJson([arm |-> arm, kind |-> kind, t |-> t, fam |-> fam])>>)
 =============================================================================
